@@ -161,7 +161,7 @@ CLAIMED = {
   design="§5 C12", technique="Lean 4 proof (inductive invariant over all schedules, liveness under weak fairness) + trace validation against real runs"),
 }
 REASONS = {}
-PENDING = {"C13": "temporarily withdrawn: model being re-pointed to the repaired code (fix 33969c0); see DESIGN.md 11"}
+PENDING = {"C04": "merged, being re-pointed to the repaired code (fixes c926070, 13137d1)", "C13": "temporarily withdrawn: model being re-pointed to the repaired code (fix 33969c0); see DESIGN.md 11"}
 for _p, _r in PENDING.items():
     CLAIMED.pop(_p, None)
     REASONS[_p] = _r
